@@ -359,6 +359,15 @@ func (vc *VC) bindLoops() {
 			return true
 		})
 	}
+	// source line of a loop that is not nested in another loop (0 for nested ones)
+	loopLine := func(l ast.Node) int {
+		for _, o := range srcLoops {
+			if o != l && o.Pos() <= l.Pos() && l.End() <= o.End() {
+				return 0
+			}
+		}
+		return vc.e.prog.Fset.Position(l.Pos()).Line
+	}
 	// map header -> source loop: the innermost source loop containing the position of any instruction of the header
 	hdrLoop := map[int]ast.Node{}
 	for _, h := range vc.loopHeads {
@@ -417,6 +426,7 @@ func (vc *VC) bindLoops() {
 		for _, h := range vc.loopHeads {
 			if l := hdrLoop[h]; l != nil {
 				vc.bareLoops = append(vc.bareLoops, textOf(l))
+				vc.bareLoopAt = append(vc.bareLoopAt, loopLine(l))
 			}
 		}
 		return
@@ -509,6 +519,7 @@ func (vc *VC) bindLoops() {
 	for _, h := range vc.loopHeads {
 		if l := hdrLoop[h]; l != nil && vc.loopSpecs[h] == nil {
 			vc.bareLoops = append(vc.bareLoops, textOf(l))
+			vc.bareLoopAt = append(vc.bareLoopAt, loopLine(l))
 		}
 	}
 }
